@@ -228,7 +228,7 @@ func GenXRecord(t *rapid.T, label string, pool *[]string, allowOPT bool) (XRecor
 		x.Body, x.Want.Type, x.Want.Data = &dnsmessage.AResource{A: a}, 1, net.IP(a[:])
 	case "AAAA":
 		var a [16]byte
-		copy(a[:], genBytes(t, label+"_aaaa", 16))
+		copy(a[:], genV6(t, label+"_aaaa"))
 		x.Body, x.Want.Type, x.Want.Data = &dnsmessage.AAAAResource{AAAA: a}, 28, net.IP(a[:])
 	case "NS", "CNAME", "PTR":
 		s, n, err := nm("rd")
